@@ -389,6 +389,36 @@ def byzantine_packetizer(side, log, mutate_out=None, filter_in=None, frame_out=N
     return type("Byz_" + side, (ByzantinePacketizer,), d)
 
 
+def strict_marker_only_initially(base):
+    """ADVERSARY-side Transport that behaves like OpenSSH: the kex-strict-*-v00 marker is put into the INITIAL KEXINIT
+    only ("only valid in the initial SSH2_MSG_KEXINIT and MUST be ignored in subsequent ones"), while strict mode, once
+    agreed, stays in force for the whole connection.  The re-key KEXINIT is rewritten before it is recorded for the
+    exchange hash, so the session stays consistent."""
+    from paramiko import Message
+    from .wiretap import Reader
+
+    class MarkerOnce(base):
+        def _send_message(self, data):
+            b = data.asbytes()
+            if b[:1] == b"\x14" and self.initial_kex_done and getattr(self, "local_kex_init", None) == b:
+                r = Reader(b)
+                r.byte()
+                cookie = bytes(r.d[r.i:r.i + 16])
+                r.i += 16
+                names = [n for n in r.namelist() if not n.startswith("kex-strict-")]
+                tail = r.rest()
+                x = ",".join(names).encode()
+                out = bytes([20]) + cookie + len(x).to_bytes(4, "big") + x + tail
+                self.local_kex_init = self._latest_kex_init = out
+                data = Message()
+                data.add_bytes(out)
+                core.CURRENT.fault("rekey_kexinit_without_strict_marker")
+            return base._send_message(self, data)
+
+    MarkerOnce.__name__ = "MarkerOnce"
+    return MarkerOnce
+
+
 def asymmetric_client(base, enc_c2s, enc_s2c, mac_c2s, mac_s2c):
     """ADVERSARY-side client Transport whose KEXINIT carries different cipher / MAC lists for the two directions
     (legal per RFC 4253 7.1, never produced by paramiko itself).  The KEXINIT is rewritten before it is recorded for
